@@ -1217,6 +1217,36 @@ func runC18(p *Prog, r *Report) {
 		}
 		got[eff] = true
 		r.Check(known && okEdge, "C18.R4", tn+": side effect "+eff+" launched exactly on its state", p.InstrPos(call), eff+" only on the new-state == "+cb.names[ws]+" edge", "side effect "+eff+" is not launched exactly when the new state is its own")
+		// ... and on EVERY entry into that state, whatever the previous one: with the branches on the new state
+		// decided for state == its own, no return is reachable without passing the launch (a further condition
+		// — "only when coming from standby" — drops the hook for a trip during recovery)
+		if known && okEdge {
+			edgeOK := func(e Edge) bool {
+				ifi, ok := e.B.Instrs[len(e.B.Instrs)-1].(*ssa.If)
+				if !ok {
+					return true
+				}
+				cnd, pos := condStrip(ifi.Cond)
+				bo, ok := cnd.(*ssa.BinOp)
+				if !ok || (bo.Op != token.EQL && bo.Op != token.NEQ) || stripConv(bo.X) != ssa.Value(stateParam) {
+					return true
+				}
+				k, ok := constInt(bo.Y)
+				if !ok {
+					return true
+				}
+				holds := (k == ws) == (bo.Op == token.EQL) // value of the comparison when state == ws
+				if !pos {
+					holds = !holds
+				}
+				return (e.K == 0) == holds
+			}
+			isLaunch := func(in ssa.Instruction) bool { return in == ssa.Instruction(call) }
+			ret := ReturnReachableAvoiding(cb.setState, nil, isLaunch, edgeOK)
+			r.Paths++
+			r.Check(ret == nil, "C18.R4", tn+": side effect "+eff+" launched on every entry into its state", p.InstrPos(call), "with state == "+cb.names[ws]+" no return avoids the launch",
+				"the state setter can return with the new state "+cb.names[ws]+" without launching "+eff+posOf(p, ret)+": the hook is skipped for some previous states (e.g. a trip during recovery), although each transition into the state runs it exactly once")
+		}
 	}
 	r.Check(got[cb.onTrippedF] && got[cb.onStandbyF] && len(got) == 2, "C18.R4", tn+": state setter launches onTripped and onStandby (and nothing for recovering)", p.FuncPos(cb.setState), "both present", fmt.Sprintf("launches found: %v", got))
 	// launcher: one goroutine, Exec once, nil-guarded
@@ -1422,6 +1452,7 @@ func mutantsC12() []Mutant {
 func mutantsC18() []Mutant {
 	f, g := "cbreaker/cbreaker.go", "cbreaker/predicates.go"
 	return []Mutant{
+		{Name: "ontripped-skipped-on-some-entries", File: "cbreaker/cbreaker.go", Old: "\tcase stateTripped:\n\t\tc.exec(c.onTripped)\n", New: "\tcase stateTripped:\n\t\tif until.IsZero() {\n\t\t\treturn\n\t\t}\n\t\tc.exec(c.onTripped)\n", Expect: "C18.R4"},
 		{Name: "record-skips-counters-on-histogram-error", File: "memmetrics/roundtrip.go", Old: "func (m *RTMetrics) Record(code int, duration time.Duration) {\n", New: "func (m *RTMetrics) Record(code int, duration time.Duration) {\n\tif duration < 0 {\n\t\treturn\n\t}\n", Expect: "C18.R9"},
 		{Name: "check-period-defaulted-after-options", File: "cbreaker/cbreaker.go", Old: "\tcondition, err := parseExpression(expression)\n", New: "\tif cb.checkPeriod == 0 {\n\t\tcb.checkPeriod = defaultCheckPeriod\n\t}\n\tcondition, err := parseExpression(expression)\n", Expect: "C18.R7"},
 		{Name: "no-metrics-reset", File: f, Old: "\tc.setState(stateTripped, clock.Now().UTC().Add(c.fallbackDuration))\n\tc.metrics.Reset()\n", New: "\tc.setState(stateTripped, clock.Now().UTC().Add(c.fallbackDuration))\n", Expect: "C18.R3"},
